@@ -50,6 +50,8 @@ class Field:
     def gen(self):
         if self.skip:
             return "Default::default()"
+        if getattr(self, "const", None) is not None:
+            return self.const
         if self.nested:
             inner = f"super::s_{self.nested.lower()}::gen()"
         elif self.bytes:
@@ -201,9 +203,10 @@ def tag_stmt(f):
 
 
 def emit_field(f, acc):
-    """array position / transparent: present -> [tag] value, absent optional -> null (per the documentation)"""
+    """array position / transparent: [tag] value; an absent optional's value is null (the documentation:
+    "Options which are None end up as NULLs", the tag being "the CBOR tag of the value")"""
     if f.opt:
-        return f"match &{acc} {{ Some(x) => {{ {tag_stmt(f)} {f.emit_value('(*x)')} }} None => r.byte(0xf6) }}"
+        return f"{tag_stmt(f)} match &{acc} {{ Some(x) => {{ {f.emit_value('(*x)')} }} None => r.byte(0xf6) }}"
     return f"{tag_stmt(f)} {f.emit_value(acc)}"
 
 
@@ -334,7 +337,14 @@ SCHEMAS = [
     Enum("ETag", [Variant(0, "A", tag=3), Variant(1, "B", [F(0, "u8", tag=4)], "tuple", tag=5)], tag=6, note="tags at enum, variant and field level"),
     Struct("WithEnum", [F(0, "u8"), F(1, "u8", nested="EPlain", opt=True), F(2, "bool")], note="enum in an optional field with a sibling after it"),
     Struct("WithIdx", [F(0, "u8", nested="EIdx", opt=True), F(1, "u8")], note="index_only enum in an optional field"),
+    Struct("Map25", [F(i, "bool") for i in range(23)] + [F(23, "bool", opt=True), F(24, "bool", opt=True)], enc="map", note="25-field map: header at the 23/24 boundary (length only)"),
+    Struct("Arr25", [F(i, "bool") for i in range(23)] + [F(23, "bool", opt=True), F(24, "bool", opt=True)], note="25-field array (length only)"),
 ]
+SCHEMAS[-1].big = True; SCHEMAS[-1].tier = "t"; SCHEMAS[-2].tier = "t"
+SCHEMAS[-2].big = True
+for _s in SCHEMAS[-2:]:
+    for _f in _s.fields[:23]:
+        _f.const = "true"
 
 
 
@@ -349,6 +359,7 @@ class TD:
         self.rng, self.cls, self.presence, self.frame = rng, cls, presence, frame
         self.bytes, self.nsym, self.nbool = [], 0, 0
         self.desc = []
+        self.tagged_null = True   # writer convention for an absent tagged optional inside the array range
 
     def sym(self, mask=None):
         e = f"a[{self.nsym}]"
@@ -459,6 +470,8 @@ def td_fields(td, fields, enc, schemas, outer=False):
             if p in byidx and pres[p]:
                 vt[p] = td_field_value(td, byidx[p], schemas)
             else:
+                if p in byidx and byidx[p].tag is not None and td.tagged_null:
+                    td.head(6, byidx[p].tag)
                 td.const(0xf6)
                 if p in byidx:
                     vt[p] = None
@@ -684,7 +697,132 @@ def nested_uses(s):
     return " ".join(f"use super::s_{n.lower()}::{n};" for n in names)
 
 
+COMPAT_SCHEMAS = [
+    Struct("PlainR", [F(1, "u16", name="second"), F(2, "bool", name="third"), F(0, "u8", name="first")], note="Plain renamed and permuted"),
+    Struct("A1", [F(0, "u8"), F(1, "u16")]), Struct("A2", [F(0, "u8"), F(1, "u16"), F(2, "bool", opt=True)], note="optional added at a new index"),
+    Struct("G1", [F(0, "u8"), F(2, "u16")]), Struct("G2", [F(0, "u8"), F(1, "u8", opt=True), F(2, "u16")], note="optional added at a gap index"),
+    Struct("M1", [F(0, "u8"), F(3, "bool")], enc="map"), Struct("M2", [F(0, "u8"), F(1, "u16", opt=True), F(3, "bool"), F(7, "u8", opt=True)], enc="map", note="optionals added to a map"),
+    Enum("E1", [Variant(0, "A"), Variant(1, "B", [F(0, "u8")], "tuple")]),
+    Enum("E2", [Variant(0, "A"), Variant(1, "B", [F(0, "u8")], "tuple"), Variant(2, "C", [F(0, "u16")], "tuple"), Variant(3, "D")], note="variants added"),
+    Struct("H1", [F(0, "u8", nested="E1", opt=True), F(1, "u8")]), Struct("H2", [F(0, "u8", nested="E2", opt=True), F(1, "u8")], note="enum in optional field gains variants; sibling after it"),
+    Enum("I1", [Variant(0, "A"), Variant(1, "B")], index_only=True),
+    Enum("I2", [Variant(0, "A"), Variant(1, "B"), Variant(7, "C")], index_only=True, note="index_only enum gains a variant"),
+    Struct("J1", [F(0, "u8", nested="I1", opt=True), F(1, "u8")]), Struct("J2", [F(0, "u8", nested="I2", opt=True), F(1, "u8")], note="index_only enum in optional field; sibling after it"),
+    Enum("U1", [Variant(0, "A"), Variant(1, "B")]),
+    Enum("U2", [Variant(0, "A", [F(0, "u8", opt=True), F(1, "bool", opt=True)], "struct"), Variant(1, "B", [F(0, "u16", opt=True)], "tuple")], note="unit variants turned into struct / tuple variants with optional fields"),
+    Struct("T1", [F(0, "u8"), F(2, "u16")]), Struct("T2", [F(0, "u8"), F(1, "u8", opt=True, tag=9), F(2, "u16")], note="TAGGED optional added at a gap index"),
+    Struct("X1", [F(0, "u8"), F(1, "u8", nested="Inner"), F(2, "bool"), F(3, "u8", bytes_=True)], note="writer has fields 1 (a struct) and 3 (bytes) unknown to the reader"),
+    Struct("X0", [F(0, "u8"), F(2, "bool")]),
+    Struct("N1", [F(0, "u8")]), Struct("N2", [F(0, "u8"), F(1, "u16")], note="mandatory field added: decoding the old encoding must fail"),
+    Struct("MX1", [F(0, "u8"), F(1, "u8", nested="Inner"), F(5, "u8", bytes_=True)], enc="map"), Struct("MX0", [F(0, "u8")], enc="map", note="map: unknown keys ignored"),
+]
+
+# (writer, reader, edit name); both directions are generated where the reverse is also documented-compatible
+COMPAT_PAIRS = [
+    ("Plain", "PlainR", "rename"), ("PlainR", "Plain", "rename"),
+    ("A1", "A2", "add-optional-new-index"), ("A2", "A1", "drop-optional-new-index"),
+    ("G1", "G2", "add-optional-gap-index"), ("G2", "G1", "drop-optional-gap-index"),
+    ("M1", "M2", "add-optional-map"), ("M2", "M1", "drop-optional-map"),
+    ("H1", "H2", "enum-variants-added(old writer)"), ("H2", "H1", "enum-variants-added(new writer, unknown variant => None)"),
+    ("J1", "J2", "index-only-variants-added(old writer)"), ("J2", "J1", "index-only-variants-added(new writer, unknown variant => None)"),
+    ("U1", "U2", "unit-to-struct-variant(old writer)"), ("U2", "U1", "unit-to-struct-variant(new writer)"),
+    ("T1", "T2", "add-tagged-optional-gap-index"), ("T2", "T1", "drop-tagged-optional-gap-index"),
+    ("X1", "X0", "unknown-fields-ignored"), ("MX1", "MX0", "unknown-map-keys-ignored"),
+    ("N1", "N2", "missing-mandatory-is-error"),
+]
+
+
+def compat_harnesses(schemas):
+    out = ["\npub mod c10 {\n    use super::*;\n"]
+    for s in COMPAT_SCHEMAS:
+        out.append(f"    pub mod s_{s.name.lower()} {{ use super::*; {nested_uses_c10(s)}\n{s.type_def()}\n    }}\n")
+    for pi, (w, r, edit) in enumerate(COMPAT_PAIRS):
+        W, R = schemas[w], schemas[r]
+        uses = " ".join(sorted({type_use(x, schemas) for x in all_types(R, schemas)}))
+        out.append(f"    pub mod p{pi:02d}_{w.lower()}_to_{r.lower()} {{\n        use super::*; {uses}\n")
+        cases = []
+        if W.kind == "enum":
+            k = 0
+            for v in W.variants:
+                for (cls, pres, frame) in [LAYOUTS[0], LAYOUTS[1], LAYOUTS[4]]:
+                    cases.append((k, cls, pres, frame, v)); k += 1
+        else:
+            for k, lay in enumerate(LAYOUTS):
+                cases.append((k, lay[0], lay[1], lay[2], None))
+        seen = set()
+        for (k, cls, pres, frame, v) in cases:
+            td, exp = td_case(W, R, schemas, sum(map(ord, w + r)) * 17 + k, cls, pres, frame, v)
+            key = tuple(td.bytes)
+            if key in seen:
+                continue
+            seen.add(key)
+            doc = f"C10 {edit}: value written by {w} (layout {k}: widths={cls} presence={pres} frame={frame}) decoded as {r}"
+            out.append(td_fn(f"c10_l{k}", td, exp, R, doc,
+                             'if let Err(e) = &r { assert!(e.is_missing_value(), "not a missing-value error") }'))
+        out.append("    }\n")
+    out.append("}\n")
+    return "".join(out)
+
+
+def all_types(s, schemas, acc=None):
+    acc = acc if acc is not None else []
+    if s.name not in [x.name for x in acc]:
+        acc.append(s)
+    fs = s.fields if s.kind == "struct" else [f for v in s.variants for f in v.fields]
+    for f in fs:
+        if f.nested:
+            all_types(schemas[f.nested], schemas, acc)
+    return acc
+
+
+def type_use(s, schemas):
+    if s in COMPAT_SCHEMAS:
+        return f"use crate::gen::c10::s_{s.name.lower()}::{s.name};"
+    return f"use crate::gen::s_{s.name.lower()}::{s.name};"
+
+
+def nested_uses_c10(s):
+    fs = s.fields if s.kind == "struct" else [f for v in s.variants for f in v.fields]
+    names = sorted({f.nested for f in fs if f.nested})
+    out = []
+    for n in names:
+        if n in [c.name for c in COMPAT_SCHEMAS]:
+            out.append(f"use crate::gen::c10::s_{n.lower()}::{n};")
+        else:
+            out.append(f"use crate::gen::s_{n.lower()}::{n};")
+    return " ".join(out)
+
+
+def big_harness(s, schemas):
+    """>= 24 fields: only the length clause (C07), with a 128-byte cursor."""
+    mod = f"s_{s.name.lower()}"
+    return f"""
+pub mod {mod} {{
+    use super::*;
+    {s.type_def()}
+    {s.gen_fn()}
+    pub mod {s.tier} {{
+        use super::*;
+        /// C07 at the 23/24 entry boundary of the map header (two-byte head).
+        #[kani::proof]
+        #[kani::unwind(4)]
+        pub fn c07() {{
+            let v = gen();
+            let mut e = minicbor::Encoder::new(minicbor::encode::write::Cursor::new([0u8; 128]));
+            assert!(e.encode(&v).is_ok());
+            let pos = e.writer().position();
+            let n = minicbor::CborLen::cbor_len(&v, &mut ());
+            assert!(n == pos, "derived cbor_len differs from the number of bytes written");
+            kani::cover!(pos == {s.maxlen(schemas)});
+        }}
+    }}
+}}
+"""
+
+
 def harnesses(s, schemas):
+    if getattr(s, "big", False):
+        return big_harness(s, schemas)
     n = s.maxlen(schemas)
     assert n <= 30, (s.name, n)
     uw = max(12, n + 2)
@@ -734,14 +872,16 @@ pub mod {mod} {{
 
 
 def main():
-    schemas = {s.name: s for s in SCHEMAS}
+    schemas = {s.name: s for s in SCHEMAS + COMPAT_SCHEMAS}
     out = ["//! GENERATED by gen.py -- do not edit.  One module per schema row.\n",
            "#![allow(unused_variables, unused_mut, unused_parens, unused_assignments)]\n",
            "use crate::util::*;\nuse minicbor::Decoder;\n"]
     for s in SCHEMAS:
         out.append(harnesses(s, schemas))
+    out.append(compat_harnesses(schemas))
     open("src/gen.rs", "w").write("".join(out))
-    json.dump([s.describe() for s in SCHEMAS], open("schemas.json", "w"), indent=1)
+    json.dump({"schemas": [s.describe() for s in SCHEMAS], "compat_schemas": [s.describe() for s in COMPAT_SCHEMAS],
+               "compat_pairs": [{"writer": w, "reader": r, "edit": e} for (w, r, e) in COMPAT_PAIRS]}, open("schemas.json", "w"), indent=1)
     print("generated %d schemas" % len(SCHEMAS))
 
 
